@@ -79,6 +79,9 @@ func wireRTMain(rc *RunCtx) {
 	ab := simnet.DrawLink(st)
 	if st.Bool(1, 4) {
 		ab.Window = 512 + st.Choice(70000)
+		if maxData > 100000 {
+			ab.Window += 8192 // a 1 MiB message must fit in the reader's 6-minute deadline
+		}
 		simrt.Fault("small-window")
 	}
 	cutA := st.Bool(1, 4)
@@ -334,10 +337,12 @@ func hostileBencode(st *simrt.Stream) ([]byte, string) {
 	case 1:
 		return bytes.Repeat([]byte("d1:a"), 1+st.Choice(1500)), "deep-dict"
 	case 2:
-		n := simrt.Pick(st, "2000000000", "2147483647", "999999999", "100000000", "4294967295", "99999999999999999999")
+		// (large enough to be unmistakable; several of them alive at once
+		// must still fit in a worker's address space)
+		n := simrt.Pick(st, "600000000", "999999999", "100000000", "4294967295", "99999999999999999999")
 		return []byte("d1:v" + n + ":abe"), "declared-string-length"
 	case 3:
-		n := simrt.Pick(st, "2000000000", "2147483647", "600000000")
+		n := simrt.Pick(st, "600000000", "300000000")
 		return []byte("d5:added" + n + ":abe"), "declared-string-length"
 	case 4:
 		return []byte("d8:msg_typei-1e5:piecei0ee"), "negative-int"
